@@ -213,8 +213,9 @@ PLANS = {
                 "(independent free-segment oracle), sum over bins == free area; then random histories (<= 12 steps) over refineX/Y, "
                 "coarsenX/Y, refine, improve, run, coarsenFully, refineFully with random accepted parameter sets, cost models and "
                 "targets (inside, outside, coincident): after every step each positive-demand cell in exactly one bin, zero-demand "
-                "cells in none, coarse capacities sum to the same total, spread coordinates finite and inside the cell's bin; the "
-                "library's own check() asserts are live; non-trivial = >= 1 history step applied; distinct = grid shape, obstruction, "
+                "cells in none, coarse capacities sum to the same total, spread coordinates finite and inside the cell's bin; at the end "
+                "a second legalizer is built from the state left behind (converting constructor): same view and allocation, same "
+                "invariants, also after one more pass; the library's own check() asserts are live; non-trivial = >= 1 history step applied; distinct = grid shape, obstruction, "
                 "margin, cost model, transport, history length, levels visited",
         "assumptions": ["free-segment oracle of harness/circ.hpp", "the area of a single cell stays below 2^30 (cell demands are 32-bit integers in the density legalizer)"],
         "runs": [R("h_density", "asan", "c16.history", 10000, 30000), R("h_density", "fast", "c16.history", 0, 120000)],
